@@ -552,7 +552,26 @@ func (c *FnCtx) specRecCall(env *Env, sf *SpecFn, args []Val, rt types.Type, ten
 		for i, k := range info.keys {
 			ps = append(ps, fmt.Sprintf("(%s %s)", info.prefix+sanitize(k), info.sorts[i]))
 		}
-		c.declare(name, fmt.Sprintf("(define-fun-rec %s (%s) %s %s)", name, strings.Join(ps, " "), c.sortOf(rt), body))
+		// Axiomatised with bounded unfolding ("fuel", as Dafny/Boogie do) instead of
+		// define-fun-rec: name = name!1 = name!0 denote the same function; a term name(x)
+		// unfolds to the body over name!1, name!1(x) to the body over name!0, and name!0 does
+		// not unfold.  (z3 5.1.0 answered `unsat` on a satisfiable query that combined
+		// define-fun-rec with quantified lemmas — see DESIGN.md — so recfun is avoided.)
+		var sorts, vars []string
+		for _, p := range ps {
+			inner := p[1 : len(p)-1]
+			f := strings.Fields(inner)
+			vars = append(vars, f[0])
+			sorts = append(sorts, strings.TrimSpace(strings.TrimPrefix(inner, f[0])))
+		}
+		rs := c.sortOf(rt)
+		call := func(fn string) string { return app(fn, vars...) }
+		subst := func(b, to string) string { return strings.ReplaceAll(b, "("+name+" ", "("+to+" ") }
+		binder := strings.Join(ps, " ")
+		decl := fmt.Sprintf("(declare-fun %s (%s) %s)\n(declare-fun %s!1 (%s) %s)\n(declare-fun %s!0 (%s) %s)\n", name, strings.Join(sorts, " "), rs, name, strings.Join(sorts, " "), rs, name, strings.Join(sorts, " "), rs)
+		decl += fmt.Sprintf("(assert (forall (%s) (! (and (= %s %s) (= %s %s)) :pattern (%s))))\n", binder, call(name), subst(body, name+"!1"), call(name), call(name+"!1"), call(name))
+		decl += fmt.Sprintf("(assert (forall (%s) (! (and (= %s %s) (= %s %s)) :pattern (%s))))", binder, call(name+"!1"), subst(body, name+"!0"), call(name+"!1"), call(name+"!0"), call(name+"!1"))
+		c.declare(name, decl)
 		info.defined = true
 	}
 	var as []string
